@@ -417,8 +417,13 @@ def expected(spec: dict, p: dict):
     return canon(pick(None)), [EXC[p["exc"]].__name__, canon(tuple(EXC[p["exc"]](*p["exc_args"]).args))]
 
 
+_ADDR = __import__("re").compile(r"0x[0-9a-fA-F]{6,}")
+
+
 def canon(x):
-    return json.dumps(x, sort_keys=True, default=repr)
+    # memory addresses (repr of a function inside a pickling error, of an object without its own repr) differ from
+    # process to process: they are masked, so that event logs and violation details are a function of the seed alone
+    return _ADDR.sub("0x#", json.dumps(x, sort_keys=True, default=repr))
 
 
 def build_payloads(spec: dict):
